@@ -57,6 +57,16 @@ func vfRunPair(ccfg, scfg *Config, opt vfPairOpt) *vfPair {
 		cc, sc = ccfg.Clone(), scfg.Clone()
 	}
 	cc.NewTimer, sc.NewTimer = sim.newTimer, sim.newTimer
+	if g := sc.GetConfigForClient; g != nil && !opt.InPlace {
+		// a per-client configuration runs on the virtual clock too
+		sc.GetConfigForClient = func(h *ClientHelloInfo) (*Config, error) {
+			c, err := g(h)
+			if c != nil {
+				c.NewTimer = sim.newTimer
+			}
+			return c, err
+		}
+	}
 	cli := Client(sim.ends[0], sim.ends[1].addr, cc)
 	srv := Server(sim.ends[1], sim.ends[0].addr, sc)
 	if opt.Prepare != nil {
